@@ -420,7 +420,7 @@ def main(check_id, tier, replay=None, only=None):
     budget_s = float(os.environ.get("VERIF_BUDGET_S", default_budget))
     # use idle cores: when a property's quick tier has fewer shards than workers, every generated sub-check gets more shards (more cases, same wall time)
     planned = sum(s.shards[tier] for s in mod.SUBCHECKS if s.name in per_sub)
-    boost = max(1, min(4, MAX_WORKERS // max(planned, 1))) if tier == "quick" else 1
+    boost = max(1, min(4, 16 // max(planned, 1))) if tier == "quick" else 1  # independent of the machine: the cases depend on the seed only
     for k, s in enumerate(mod.SUBCHECKS):
         if s.name not in per_sub:
             continue
